@@ -53,7 +53,9 @@ def gen_values(rnd, key_is_color):
         digits = ''.join(rnd.choice('0123456789abcdef') for _ in range(d))
         if d == 6 and rnd.random() < .4: digits = ''.join(ch * 2 for ch in digits[:3])
         alpha = rnd.choice([None, None, None, None, '.5', '.25', '.1', '.75', '.9', '.0', '.00', '.05', '.125', '.005', '.9999', '.0625', '.333'])
-        return '#' + digits + (alpha or ''), [('color', digits, alpha)]
+        # hex digits may be typed in either letter case (the value is the same colour)
+        typed = digits if rnd.random() < .65 else (digits.upper() if rnd.random() < .5 else ''.join(ch.upper() if rnd.random() < .5 else ch for ch in digits))
+        return '#' + typed + (alpha or ''), [('color', digits, alpha)]
     n = rnd.choice([1, 1, 2, 3, 4])
     s = ''
     for i in range(n):
